@@ -123,7 +123,17 @@ theorem gzHdrs_fin_cl (h : HMap) (n : Nat) (vs : List Str) (hcl : dget nCL h = s
 
 /-! ### `C29.hFlush` is `C02.hFlushCore` on the transform's outputs -/
 
-theorem hFlush_unwritten (gz : Gz) (rq : Req) (s : St) (fin : Bool) (hw : s.base.headersWritten = false) :
+theorem hFlush_eq (gz : Gz) (rq : Req) (s : St) (fin : Bool)
+    (h : s.base.headersWritten = true ∨ clValid s.base.hdrs = true) : hFlush gz rq s fin = hFlushT gz rq s fin := by
+  unfold hFlush
+  rcases h with h | h <;> simp [h]
+
+theorem hFlush_reject (gz : Gz) (rq : Req) (s : St) (fin : Bool)
+    (hw : s.base.headersWritten = false) (hv : clValid s.base.hdrs = false) : hFlush gz rq s fin = (s, true) := by
+  unfold hFlush; simp [hw, hv]
+
+theorem hFlush_unwritten (gz : Gz) (rq : Req) (s : St) (fin : Bool) (hw : s.base.headersWritten = false)
+    (hv : clValid s.base.hdrs = true) :
     hFlush gz rq s fin =
       ({ base := (hFlushCore rq { s.base with
                     hdrs := (transformFirst gz s.t s.base.status s.base.hdrs s.base.buf.flatten fin).2.1,
@@ -132,14 +142,16 @@ theorem hFlush_unwritten (gz : Gz) (rq : Req) (s : St) (fin : Bool) (hw : s.base
        (hFlushCore rq { s.base with
                     hdrs := (transformFirst gz s.t s.base.status s.base.hdrs s.base.buf.flatten fin).2.1,
                     buf := [(transformFirst gz s.t s.base.status s.base.hdrs s.base.buf.flatten fin).2.2] }).2) := by
-  simp [hFlush, hFlushCore, hw]
+  rw [hFlush_eq gz rq s fin (Or.inr hv)]
+  simp [hFlushT, hFlushCore, hw]
 
 theorem hFlush_written (gz : Gz) (rq : Req) (s : St) (fin : Bool) (hw : s.base.headersWritten = true)
     (t' : TSt) (chunk' : Bytes) (ht : transformChunk gz s.t s.base.buf.flatten fin = some (t', chunk')) :
     hFlush gz rq s fin =
       ({ base := (hFlushCore rq { s.base with buf := [chunk'] }).1, t := t' },
        (hFlushCore rq { s.base with buf := [chunk'] }).2) := by
-  simp only [hFlush, hFlushCore, hw, ht]
+  rw [hFlush_eq gz rq s fin (Or.inl hw)]
+  simp only [hFlushT, hFlushCore, hw, ht]
   by_cases hm : (rq.method != Method.head) = true <;> simp [hm]
 
 /-! ### invariant of the transform state in a clean run -/
@@ -286,7 +298,7 @@ theorem flush_first29 (gz : Gz) (rq : Req) (s : St) (K : Nat) (ci : CI rq s.base
   obtain ⟨fr, hok⟩ := ci.wf.pre hw
   have hsent : s.base.conn.sent = [] := fr.2.2.2.1
   have hh : s.t.hist = [] := ti.pre hw
-  rw [hFlush_unwritten gz rq s false hw]
+  rw [hFlush_unwritten gz rq s false hw (clValid_absent _ (ci.ncl hw))]
   rcases transformFirst_cases gz s.t s.base.status s.base.hdrs s.base.buf.flatten false ti.open_ with e | e
   · rw [e]
     have ncl : dget nCL (addVary s.base.hdrs) = none := by rw [dget_nCL_addVary]; exact ci.ncl hw
@@ -376,7 +388,12 @@ theorem finflush_first29 (gz : Gz) (rq : Req) (s : St) (ti : TI gz s) (p : Pre r
     FlushedOK gz rq (hFlush gz rq s true) s.base.buf.flatten s.base.status := by
   have hw : s.base.headersWritten = false := p.2.2.2.1
   have hh : s.t.hist = [] := ti.pre hw
-  rw [hFlush_unwritten gz rq s true hw]
+  have hcv : clValid s.base.hdrs = true := by
+    unfold clValid hget
+    rw [norm_nCL, hcl]
+    simp only [C06.joinWith, parseDec_toDec]
+    simp
+  rw [hFlush_unwritten gz rq s true hw hcv]
   rcases transformFirst_cases gz s.t s.base.status s.base.hdrs s.base.buf.flatten true ti.open_ with e | e
   · rw [e]
     have w' : WF rq { s.base with hdrs := addVary s.base.hdrs, buf := [s.base.buf.flatten] } :=
